@@ -369,6 +369,13 @@ func shapeKeys(p Program, msg string) []string {
 	if p.localTypeAsArg() {
 		keys = append(keys, "local_type_of_generic_func_as_type_argument")
 	}
+	// two more internal errors of the compiler on types declared inside generic functions (thorough tier)
+	if p.hasKind("nested") && strings.Contains(msg, "requesting ID of instance") && strings.Contains(msg, "hasn't been added to the set") {
+		keys = append(keys, "nested_type_instance_id_not_registered")
+	}
+	if p.hasKind("nested") && strings.Contains(msg, "number of nesting type parameters and arguments must match") {
+		keys = append(keys, "nesting_type_params_and_args_mismatch")
+	}
 	return keys
 }
 
